@@ -90,10 +90,10 @@ void Arena::reset(ResetPolicy reset_policy) noexcept {
     ManagedBlock* current = first;
 
     if (first == &_arena_zero_block) {
-      return;
+      // No managed blocks to release, however, there still can be dynamic blocks.
+      current = nullptr;
     }
-
-    if (has_static_block()) {
+    else if (has_static_block()) {
       current = current->next;
       first->next = nullptr;
     }
